@@ -592,7 +592,13 @@ func c10Repair(run *vfRun, c c10Case) {
 	}
 	go syncer.Run() // as newChainStore does: the Run loop drains the synced-beacon notifications
 	defer syncer.Stop()
-	faulty, err := syncer.CheckPastBeacons(ctx, c.Chain, nil)
+	// every second check is asked to go beyond what the node has: rounds it does not hold yet are not "faulty"
+	upTo := c.Chain
+	if (c.Index/4)%2 == 1 {
+		upTo += uint64(1 + (c.Index/8)%5)
+		run.Count("checks_asked_beyond_the_head", 1)
+	}
+	faulty, err := syncer.CheckPastBeacons(ctx, upTo, nil)
 	if err != nil {
 		run.Violation("C10/check-fails/"+kind, err.Error(), info)
 		return
